@@ -26,7 +26,7 @@ SpokKinds == {"formatted", "unformatted", "syntaxbad", "loadbad", "missing"}
 Flags     == {"init", "fmt", "vars", "clean", "show", "quiet", "debug", "json", "force", "task"}
 CONSTANT MaxFlags
 FlagSets  == {F \in SUBSET Flags : Cardinality(F) <= MaxFlags}
-Cwds      == {"root", "nested"}
+Cwds      == {"root", "nested", "elsewhere"}     \* elsewhere: an unrelated directory, the spokfile named with --spokfile
 
 VARIABLES kind, cwd, gitignore, dotenv, cache, last
 cvars == <<kind, cwd, gitignore, dotenv, cache, last>>
